@@ -274,7 +274,12 @@ func TestVerifC40(t *testing.T) {
 		doneMu.Unlock()
 		t.Logf("C40 %s depth %d: completed %d, evaluations so far %d", name, p.depth, completed, r.Get("evaluations"))
 	}
-	r.Set("depth_completed", done)
+	ds := map[string]string{}
+	for k, v := range done {
+		r.Set("min_depth_completed "+k, v) // merged over shard processes with min()
+		ds[k] = fmt.Sprint(v)
+	}
+	r.Set("depth_completed", ds)
 	if d := eng.Diverged(); len(d) > 0 {
 		t.Fatalf("determinism guard: %d of %d re-executed histories diverged, e.g. %s", len(d), eng.Guarded(), d[0])
 	}
